@@ -190,30 +190,25 @@ fn cut_parse_with_padding_any(_v: &mut crate::Value, json: &[u8], _cfg: crate::c
     }
 }
 
-/// Model of `String::from_utf8_lossy` for the one input of this harness (the std decoder's loops
-/// over a buffer do not fit; the mapping function under test walks the real `utf8_chunks`).
+/// Model of `String::from_utf8_lossy` for the two inputs of these harnesses (the std decoder's
+/// loops over a buffer do not fit; the mapping function under test walks the real `utf8_chunks`).
 fn model_from_utf8_lossy_of_text(v: &[u8]) -> std::borrow::Cow<'_, str> {
-    assert!(v.len() == 5 && v[1] == 0xff && v[2] == 0xe2 && v[3] == 0x82);
-    std::borrow::Cow::Borrowed("\"\u{FFFD}\u{FFFD}\"")
+    if v.len() == 3 {
+        assert!(v[1] == 0xff);
+        std::borrow::Cow::Borrowed("\"\u{FFFD}\"")
+    } else {
+        assert!(v.len() == 5 && v[1] == 0xff && v[2] == 0xe2 && v[3] == 0x82);
+        std::borrow::Cow::Borrowed("\"\u{FFFD}\u{FFFD}\"")
+    }
 }
 
-#[kani::proof]
-#[kani::unwind(12)]
-#[kani::stub(crate::error::Error::syntax, crate::error::verif_kani_error::syntax_cut)]
-#[kani::stub(alloc::string::String::from_utf8_lossy, model_from_utf8_lossy_of_text)]
-#[kani::stub(crate::value::node::Value::parse_with_padding, cut_parse_with_padding_any)]
-#[kani::stub(crate::value::node::Value::parse_without_padding, cut_parse_without_padding)]
-fn u_root_value_lossy_positions() {
-    // `"` ff (invalid, one byte) e2 82 (truncated sequence, two bytes) `"`; the copy has 1+3+3+1 bytes
-    let text: &'static [u8] = b"\"\xff\xe2\x82\"";
-    const COPY_LEN: usize = 8;
-    // offset in the copy -> [lowest, highest] acceptable offset in the input
-    const LO: [usize; 9] = [0, 1, 1, 1, 2, 2, 2, 4, 5];
-    const HI: [usize; 9] = [0, 1, 2, 2, 2, 4, 4, 4, 5];
+/// `lo`/`hi`: offset in the copy -> lowest / highest acceptable offset in the input
+fn lossy_positions_body<const C: usize>(text: &'static [u8], lo: [usize; C], hi: [usize; C]) {
+    let copy_len = C - 1;
     let n: usize = kani::any();
     let fail: bool = kani::any();
-    kani::assume(n >= 1 && n <= COPY_LEN + 3);
-    kani::assume(!fail || n <= COPY_LEN);
+    kani::assume(n >= 1 && n <= copy_len + 3);
+    kani::assume(!fail || n <= copy_len);
     unsafe {
         PAD_END = n;
         PAD_FAIL = fail;
@@ -224,25 +219,47 @@ fn u_root_value_lossy_positions() {
     assert!(de.parser.read.index() <= text.len());
     match &r {
         Ok(()) => {
-            assert!(!fail && n <= COPY_LEN);
+            assert!(!fail && n <= copy_len);
             let i = de.parser.read.index();
-            assert!(LO[n] <= i && i <= HI[n]);
+            assert!(lo[n] <= i && i <= hi[n]);
         }
         Err(e) => {
             let i = crate::error::verif_kani_error::index_of(e);
             assert!(i <= text.len());
             if fail {
-                assert!(LO[n] <= i && i <= HI[n]);
+                assert!(lo[n] <= i && i <= hi[n]);
             } else {
-                assert!(n > COPY_LEN);
+                assert!(n > copy_len);
             }
         }
     }
-    kani::cover!(r.is_ok() && n == COPY_LEN);
-    kani::cover!(fail && n == 7);
-    kani::cover!(!fail && n == COPY_LEN + 2);
+    kani::cover!(r.is_ok() && n == copy_len);
+    kani::cover!(fail && n == copy_len - 1);
+    kani::cover!(!fail && n == copy_len + 2);
     core::mem::forget(r);
     core::mem::forget(de);
+}
+
+/// `"` ff `"`: one invalid byte, the copy has 1+3+1 bytes
+#[kani::proof]
+#[kani::unwind(8)]
+#[kani::stub(crate::error::Error::syntax, crate::error::verif_kani_error::syntax_cut)]
+#[kani::stub(alloc::string::String::from_utf8_lossy, model_from_utf8_lossy_of_text)]
+#[kani::stub(crate::value::node::Value::parse_with_padding, cut_parse_with_padding_any)]
+#[kani::stub(crate::value::node::Value::parse_without_padding, cut_parse_without_padding)]
+fn u_root_value_lossy_positions() {
+    lossy_positions_body::<6>(b"\"\xff\"", [0, 1, 1, 1, 2, 3], [0, 1, 2, 2, 2, 3]);
+}
+
+/// `"` ff (invalid, one byte) e2 82 (truncated sequence, two bytes) `"`; the copy has 1+3+3+1 bytes
+#[kani::proof]
+#[kani::unwind(12)]
+#[kani::stub(crate::error::Error::syntax, crate::error::verif_kani_error::syntax_cut)]
+#[kani::stub(alloc::string::String::from_utf8_lossy, model_from_utf8_lossy_of_text)]
+#[kani::stub(crate::value::node::Value::parse_with_padding, cut_parse_with_padding_any)]
+#[kani::stub(crate::value::node::Value::parse_without_padding, cut_parse_without_padding)]
+fn u_root_value_lossy_positions_two() {
+    lossy_positions_body::<9>(b"\"\xff\xe2\x82\"", [0, 1, 1, 1, 2, 2, 2, 4, 5], [0, 1, 2, 2, 2, 4, 4, 4, 5]);
 }
 
 // ---- models ------------------------------------------------------------------------------------
